@@ -72,7 +72,7 @@ pub trait Tgt: Sized {
     fn validate_encoding(&self) -> Result<(), String>;
     fn dup(&self) -> Self;
     /// family/type specific queries compared against the model
-    fn extra(&self, model: &[Self::V], rng: &mut Rng, out: &mut Vec<Mis>, counts: &mut Vec<(&'static str, u64)>);
+    fn extra(&self, model: &[Self::V], dom: Dom, rng: &mut Rng, out: &mut Vec<Mis>, counts: &mut Vec<(&'static str, u64)>);
 }
 
 pub trait Resumable<K> {
@@ -509,7 +509,8 @@ macro_rules! impl_plain {
             fn dup(&self) -> Self {
                 self.clone()
             }
-            fn extra(&self, model: &[$t], rng: &mut Rng, out: &mut Vec<Mis>, counts: &mut Vec<(&'static str, u64)>) {
+            fn extra(&self, model: &[$t], dom: Dom, rng: &mut Rng, out: &mut Vec<Mis>, counts: &mut Vec<(&'static str, u64)>) {
+                let _ = dom;
                 // scope_to_value on a sorted window
                 if let Some(w) = sorted_window(model, rng) {
                     let target: $t = if rng.chance(70) { model[rng.range(w.start, w.end - 1)].clone() } else { <$t as Val>::batch(rng, 1, Dom::ANY).pop().unwrap() };
@@ -524,7 +525,7 @@ macro_rules! impl_plain {
                     let got = it.seek_to_value(AsColumnRef::<$t>::as_column_ref(&target), w.clone());
                     if got != exp {
                         out.push(("iter.seek_to_value".into(), format!("seek_to_value({}, {w:?}) = {got:?}, model {exp:?}", target.show())));
-                    } else {
+                    } else if !exp.is_empty() {
                         let nx = it.next().map(<$t as ColumnValueRef>::to_owned);
                         let expn = model.get(exp.start).cloned();
                         if nx != expn {
@@ -760,7 +761,8 @@ macro_rules! impl_prefix {
             fn dup(&self) -> Self {
                 self.clone()
             }
-            fn extra(&self, model: &[$t], rng: &mut Rng, out: &mut Vec<Mis>, counts: &mut Vec<(&'static str, u64)>) {
+            fn extra(&self, model: &[$t], dom: Dom, rng: &mut Rng, out: &mut Vec<Mis>, counts: &mut Vec<(&'static str, u64)>) {
+                let _ = dom;
                 type P = <$t as hexane::PrefixValue>::Prefix;
                 let len = model.len();
                 let sums = prefix_sums(model);
@@ -1228,7 +1230,8 @@ macro_rules! impl_delta {
             fn dup(&self) -> Self {
                 self.clone()
             }
-            fn extra(&self, model: &[$t], rng: &mut Rng, out: &mut Vec<Mis>, counts: &mut Vec<(&'static str, u64)>) {
+            fn extra(&self, model: &[$t], dom: Dom, rng: &mut Rng, out: &mut Vec<Mis>, counts: &mut Vec<(&'static str, u64)>) {
+                let _ = dom;
                 let len = model.len();
                 let mut q = 0u64;
                 let present: Vec<i64> = model.iter().filter_map(|v| v.as_i64()).collect();
@@ -1241,8 +1244,7 @@ macro_rules! impl_delta {
                             _ => v,
                         }
                     } else {
-                        let d = Self::doms()[0];
-                        <i64 as Val>::batch(rng, 1, d).pop().unwrap()
+                        <i64 as Val>::batch(rng, 1, dom).pop().unwrap()
                     }
                 };
                 // find_by_value / find_first
